@@ -242,7 +242,7 @@ TrReturn ==
        THEN Chk("C04", "a_kind_without_a_handler_refuses_every_document_and_runs_nothing", l,
                 E.verdict = "err" /\ E.mark = "")
        ELSE /\ Chk("C03", "a_rejected_document_is_an_error_and_runs_nothing", l,
-                   E.verdict = "err" /\ E.mark = "" /\ E.err.class \in {"decode", "std"})
+                   E.verdict = "err" /\ E.mark = "" /\ E.err.class \notin {"handler", "handler_std"})
     /\ UNCHANGED <<pv, fx>>
 
 
